@@ -517,6 +517,10 @@ func (r *rewriter) rewriteStmts(list []ast.Stmt) []ast.Stmt {
 
 var timeFuncs = map[string]bool{"Now": true, "Since": true, "Sleep": true, "After": true, "NewTicker": true, "Until": true, "NewTimer": true, "AfterFunc": true}
 var timeBad = map[string]bool{"Tick": true}
+// packages whose whole business is files: only there the file-system calls become scheduling points (elsewhere they
+// are set-up or side output)
+var osFilePkgs = map[string]bool{"fileoperations": true, "walletmiddleware": true}
+var osFileFuncs = map[string]bool{"WriteFile": true, "ReadFile": true, "Rename": true, "Remove": true, "RemoveAll": true, "OpenFile": true, "Create": true, "Open": true, "Stat": true, "Mkdir": true, "MkdirAll": true, "Truncate": true}
 
 func (r *rewriter) rewriteCall(n *ast.CallExpr) ast.Node {
 	switch f := n.Fun.(type) {
@@ -570,6 +574,16 @@ func (r *rewriter) rewriteCall(n *ast.CallExpr) ast.Node {
 				r.stats["time."+name]++
 				return call(sel("vtime", name), n.Args...)
 			}
+		}
+		if name, ok := r.isPkgSel(f, "os"); ok && osFileFuncs[name] && osFilePkgs[r.pkg.Name] {
+			// file-system calls are visible steps (two tasks saving / reading files interleave at call granularity)
+			r.needV = true
+			r.stats["os."+name]++
+			n.Fun = call(r.vs("OSFn"), f, &ast.BasicLit{Kind: token.STRING, Value: strconv.Quote("os." + name)})
+			for i, a := range n.Args {
+				n.Args[i] = r.rewriteExpr(a)
+			}
+			return n
 		}
 		if name, recv := r.libCall(n); name == "badger.Backup" && *stubBackup {
 			// declared abstraction: the side-output backup of the vertices store is skipped in explored builds
